@@ -217,7 +217,13 @@ func c11Run(c *core.C, idx int) {
 	wsDir := filepath.Join(base, "ws")
 	lintCfg := "use:\n  - STANDARD\n  - COMMENTS\n  - UNARY_RPC\n"
 	breakingCfg := "use:\n  - " + []string{"FILE", "PACKAGE", "WIRE_JSON", "WIRE"}[c.Rand.IntN(4)] + "\n"
-	run.WriteTree(wsDir, s.WorkspaceFiles(v.R, gen.WorkspaceOpts{Version: "v2", Lint: lintCfg, Breaking: breakingCfg}))
+	// one workspace in four is a buf.work.yaml workspace of v1 modules (same paths, other configuration files)
+	wsVersion := "v2"
+	if idx%4 == 3 {
+		wsVersion = "v1"
+	}
+	c.Count("workspaces_"+wsVersion, 1)
+	run.WriteTree(wsDir, s.WorkspaceFiles(v.R, gen.WorkspaceOpts{Version: wsVersion, Lint: lintCfg, Breaking: breakingCfg}))
 	// bystanders that are no module content but sort between a directory name and "<name>/": next to every
 	// module directory and next to its first package directory (archives are unpacked into a memory bucket,
 	// whose walk order sees them; a directory input never does)
@@ -458,7 +464,13 @@ func c11Run(c *core.C, idx int) {
 	}
 	{
 		a := run.Buf(wsDir, env, nil, "lint", "--error-format=json")
-		b := run.Buf(wsDir, env, nil, "lint", imgFile, "--error-format=json")
+		// an image carries no configuration: in a v2 workspace buf.yaml in the working directory applies to it, in a
+		// buf.work.yaml workspace the (identical) configuration of the modules has to be named
+		var imgCfg []string
+		if wsVersion == "v1" {
+			imgCfg = []string{"--config", filepath.Join(s.Modules[0].Dir, "buf.yaml")}
+		}
+		b := run.Buf(wsDir, env, nil, append([]string{"lint", imgFile, "--error-format=json"}, imgCfg...)...)
 		c.Eval(2)
 		c11CompareAnns(c, a, b, modDirs, keyBase+" cmd=lint", "lint")
 	}
@@ -468,7 +480,7 @@ func c11Run(c *core.C, idx int) {
 		edits := c11BreakingEdits(c, s2)
 		v2 := newWSView(s2)
 		ws2 := filepath.Join(base, "ws2")
-		run.WriteTree(ws2, s2.WorkspaceFiles(v2.R, gen.WorkspaceOpts{Version: "v2", Lint: lintCfg, Breaking: breakingCfg}))
+		run.WriteTree(ws2, s2.WorkspaceFiles(v2.R, gen.WorkspaceOpts{Version: wsVersion, Lint: lintCfg, Breaking: breakingCfg}))
 		b2 := run.Buf(ws2, env, nil, "build", "-o", filepath.Join(base, "new.binpb"))
 		c.Eval(1)
 		if b2.Code == 0 {
@@ -479,7 +491,11 @@ func c11Run(c *core.C, idx int) {
 			b3 := run.Buf(ws2, env, nil, "build", md, "-o", newImg)
 			if b1.Code == 0 && b3.Code == 0 {
 				a := run.Buf(ws2, env, nil, "breaking", md, "--against", filepath.Join(wsDir, md), "--error-format=json")
-				b := run.Buf(ws2, env, nil, "breaking", newImg, "--against", oldImg, "--error-format=json")
+				bargs := []string{"breaking", newImg, "--against", oldImg, "--error-format=json"}
+				if wsVersion == "v1" {
+					bargs = append(bargs, "--config", filepath.Join(md, "buf.yaml"))
+				}
+				b := run.Buf(ws2, env, nil, bargs...)
 				c.Eval(4)
 				c11CompareAnns(c, a, b, modDirs, fmt.Sprintf("%s cmd=breaking module=%s edits=%v", keyBase, md, edits), "breaking")
 			}
